@@ -39,7 +39,7 @@ Sig == [ compose |-> <<(<<"C", "C">>), "C">>, quotient |-> <<(<<"C", "C">>), "C"
          cmerge |-> <<(<<"K", "K">>), "K">>, ccontains |-> <<(<<"K">>), "S">>, cprinted |-> <<(<<"K">>), "S">>, ceq |-> <<(<<"K", "K">>), "S">> ]
 Mutators == {"simplify_inplace"}      \* operations allowed to change their FIRST argument, and nothing else
 AllOps == DOMAIN Sig
-FocusOps == {"compose", "quotient", "copy", "elim_refine", "merge"}
+FocusOps == {"compose", "quotient", "copy", "elim_refine", "merge", "rename"}
 TermOps == {"construct", "difference", "pick_term", "term_rename", "term_isolate", "term_substitute", "term_add", "term_multiply", "term_remove", "term_queries", "list_of_terms",
             "is_empty", "simplify", "list_copy", "contains"}
 HashOps == {"copy", "simplify_inplace", "hash_eq", "rename", "dict_roundtrip", "compose", "merge"}
